@@ -13,13 +13,13 @@ Pf(p, a) == [op |-> "prefix", p |-> p, x |-> a]
 Tier == IF "TIER" \in DOMAIN IOEnv THEN IOEnv.TIER ELSE "quick"
 Core == { U("Meters"), U("Feet"), U("Seconds"), U("Minutes"), U("Hertz"), U("Grams"), U("Radians"), U("Degrees"), U("Kelvins"), U("Celsius"),
           U("Unos"), U("Percent"), U("Bits"), U("Newtons"), U("Joules"), U("Amperes"), U("Moles"), U("Candelas"),
-          Mul(U("Meters"), U("Meters")), Div(U("Meters"), U("Seconds")), PowE(U("Meters"), 1, 2), PowE(U("Seconds"), -1, 1),
+          Mul(U("Meters"), U("Meters")), Div(U("Meters"), U("Seconds")), PowE(U("Meters"), 1, 2), PowE(U("Seconds"), -1, 1), PowE(U("Meters"), 3, 2), PowE(U("Seconds"), -1, 2), PowE(U("Feet"), 2, 3), PowE(U("Hertz"), 1, 2), PowE(U("Feet"), 1, 2), PowE(Pf("kilo", U("Hertz")), 1, 2),
           Sc(U("Feet"), <<BP(6, 1, 1)>>), Pf("kilo", U("Meters")), Div(U("Joules"), U("Newtons")), Mul(U("Hertz"), U("Seconds")) }
 Exprs == IF Tier = "quick" THEN Core ELSE Core \cup {U(i) : i \in CatIds}
 VARIABLES e1, e2
 Init == e1 \in Exprs /\ e2 \in Exprs
 Next == UNCHANGED <<e1, e2>>
 SameDim(a, b) == DenDim(a) = DenDim(b)
-Emit == PrintT(<<"CASE", ToJson([e1 |-> e1, e2 |-> e2, samedim |-> SameDim(e1, e2), inv_samedim |-> SameDim(e1, PowE(e2, -1, 1)),
+Emit == PrintT(<<"CASE", ToJson([e1 |-> e1, e2 |-> e2, samedim |-> SameDim(e1, e2), inv_samedim |-> SameDim(e1, PowE(e2, -1, 1)), samemag |-> DenMag(e1) = DenMag(e2),
                                  dimless1 |-> DenDim(e1) = DenDim(Mul(U("Unos"), U("Unos")))])>>)
 ====
